@@ -246,7 +246,7 @@ def systematic(Case, cwd, thorough=False):
     mk.add("source", [("tgt", "foo[1-3]"), ("xcl", "foo[2-3]"), ("tgt", "bar,foo3")],
            opts=[("-w", "exec:foo[1-3],-foo[2-3]"), ("-w", "exec:bob@bar,foo3")], note="user-at")
     mk.add("source", [("tgt", "foo[1-3]"), ("drop", "2$"), ("xcl", "alice@foo1")],
-           opts=[("-w", "rsh:alice@foo[1-3],-/2$/"), ("-x", "alice@foo1")], note="user-at")
+           opts=[("-w", "exec:alice@foo[1-3],-/2$/"), ("-x", "alice@foo1")], note="user-at")
     # a target file with comments, blank lines and an include
     f, g = mk.fname("t"), mk.fname("inc")
     mk.add("source", [("tfile", f), ("xcl", "foo2,bar")], "sep", files={f: ["foo[1-3]", "bar", "foo2", "baz"]},
